@@ -17,6 +17,15 @@ properties; reference \\uN decoding), IfaceGen.tla (bounded universes + laws), I
    empty / blank / text) in ODT / ODS / ODP / ODG (svg:title, svg:desc, draw:name) and DOCX / PPTX / XLSX
    (name / title / descr attributes) -- every text accessor of every image must return str, through
    iterate_images() and through the units.
+2c. Round-4 families (IfaceGen modes srcs / lens / pdfs / ncrs): where a picture's bytes come from (first / middle /
+   last of four pictures linked by http(s) URL, dangling package path, path outside the package; ODF xlink:href,
+   OOXML external relationship + r:link) -- image numbers stay positive; picture geometry (ODF svg:width / height /
+   x / y with cm, mm, in, pt, px, pc, %, decimal comma, exponent, negative, empty, garbage, missing, ...; OOXML
+   extents 0 / negative / huge / non-numeric / ...) -- no accessor raises, width / height in the metadata are None
+   or a number (Size event); tagged PDFs from an own minimal writer whose figure caption / ActualText / Alt strings
+   hold every byte 127..255 (literal and hex strings, Tj and TJ) or an unpaired UTF-16 surrogate, and HTML numeric
+   character references that denote no character -- every text accessor and every string of the metadata object
+   (FileMeta.strsutf8) must encode to UTF-8.
 3. code -> spec: a recorder calls the WHOLE accessor protocol on every result and every unit, image and table
    reachable from it and logs one event per call with the projected return (or the exception); the same is done
    for every repository fixture, for seeded mutants (truncation, byte flips, zeroed / 0xFF ranges, applied to
@@ -49,10 +58,10 @@ LAWS = ["Inv_NoneWhenNoPath", "Inv_Acceptable", "Inv_Suffix", "Inv_Idempotent", 
         "Inv_FormsInUniverse", "Inv_DecodeWellFormed", "Inv_DecodeInvertsToUnits"]
 
 
-def _gen_cfg(mode, formats, max_dirs, max_val, full, dev=(), invs=LAWS):
+def _gen_cfg(mode, formats, max_dirs, max_val, full, dev=(), invs=LAWS, pdf_bytes=(173,)):
     return ("SPECIFICATION Spec\nCONSTANTS\n"
             f' Mode = "{mode}"\n MaxDirs = {max_dirs}\n MaxVal = {max_val}\n MaxUnits = 3\n Full = {to_tla(bool(full))}\n'
-            f" Formats = {to_tla(set(formats))}\n Deviations = {to_tla(set(dev))}\n"
+            f" Formats = {to_tla(set(formats))}\n Deviations = {to_tla(set(dev))}\n PdfBytes = {to_tla(set(pdf_bytes))}\n"
             + "".join(f"INVARIANT {i}\n" for i in invs))
 
 
@@ -153,6 +162,8 @@ def _describe(e):
     if a == "Text":
         return (f"{who}() returned {e['cls']}" if e["cls"] != "str"
                 else f"{who}() returned a str that is not well-formed Unicode (encode('utf-8') fails: lone surrogate)")
+    if a == "Size":
+        return f"{who} is neither None nor a number: {e['cls']}"
     if a in ("Num", "OptNum"):
         return f"{who} is not a positive integer: {e['cls']} {e['n']}"
     if a == "Stream":
@@ -163,6 +174,8 @@ def _describe(e):
         return (f"{who}: get_dim()=({e['dimrows']},{e['dimcols']}) [{e['dimcls']}] but get_table() has {e['rows']} rows, "
                 f"row widths {e['widths']} [{e['gridcls']}], cells utf8={e['cellsutf8']}")
     if a == "FileMeta":
+        if not e.get("strsutf8", True):
+            return f"{who}: a string of the metadata object ({e['mtype']}) is not well-formed Unicode (lone surrogate)"
         return (f"{who}: file metadata not derived from the path argument: filename={e['fnk']}:{'.'.join(e['fn'])} "
                 f"extension={e['extk']}:{'.'.join(e['ext'])} folder={e['dir']} file_path dir={e['fdir']} name={'.'.join(e['fpn'])} "
                 f"type={e['mtype']}")
@@ -206,10 +219,10 @@ def run(ctx):
         "cases": lambda: run_tlc("IfaceGen", _gen_cfg("cases", formats, 1, max_val, False), scratch=ctx.scratch,
                                  workers=4, dump=d_cases, timeout=900),
     }
-    d_extra = {m: ctx.scratch / f"{m}.dump" for m in ("heads", "opfs", "alts")}
+    d_extra = {m: ctx.scratch / f"{m}.dump" for m in ("heads", "opfs", "alts", "srcs", "lens", "pdfs", "ncrs")}
     for m in d_extra:
-        runs[m] = (lambda m=m: run_tlc("IfaceGen", _gen_cfg(m, formats, 1, 1, False, invs=[]), scratch=ctx.scratch,
-                                       workers=2, dump=d_extra[m]))
+        runs[m] = (lambda m=m: run_tlc("IfaceGen", _gen_cfg(m, formats, 1, 1, False, invs=[], pdf_bytes=range(127, 256)),
+                                       scratch=ctx.scratch, workers=2, dump=d_extra[m]))
     for mode, dev, inv in sens:
         runs["sens:" + dev] = (lambda mode=mode, dev=dev, inv=inv: run_tlc(
             "IfaceGen", _gen_cfg(mode, formats, 1, 1, False, dev=[dev], invs=[inv]), scratch=ctx.scratch, workers=2,
@@ -228,6 +241,10 @@ def run(ctx):
     ev.tlc("IfaceGen heads: layouts of the HTML / MHTML head x property values", tr["heads"])
     ev.tlc("IfaceGen opfs: layouts of the EPUB package document x property values", tr["opfs"])
     ev.tlc("IfaceGen alts: (format x picture name x title x description), each absent / empty / blank / text", tr["alts"])
+    ev.tlc("IfaceGen srcs: (format x first / middle / last picture x linked / dangling / outside)", tr["srcs"])
+    ev.tlc("IfaceGen lens: picture geometry values (ODF lengths, OOXML extents)", tr["lens"])
+    ev.tlc("IfaceGen pdfs: tagged PDFs, caption / description strings with a byte 127..255 or an unpaired surrogate", tr["pdfs"])
+    ev.tlc("IfaceGen ncrs: HTML numeric character references that denote no character", tr["ncrs"])
     for k in ("laws", "units", "cases"):
         if tr[k].violated:
             v.violation(what=f"IfaceGen ({k}): {tr[k].violated} violated on the specification", observed=tr[k].trace[:1])
@@ -248,7 +265,9 @@ def run(ctx):
     if len(paths) != n_paths or not cases or not units:
         raise MachineryError(f"dump sizes: paths {len(paths)}/{n_paths}, cases {len(cases)}, units {len(units)}")
     ctx.log(f"TLC enumerated {len(paths)} abstract paths, {len(cases)} (form x value x format) cases, {len(units)} \\uN runs, "
-            f"{len(extra['heads'])} head layouts, {len(extra['opfs'])} OPF layouts, {len(extra['alts'])} picture alt-text cases")
+            f"{len(extra['heads'])} head layouts, {len(extra['opfs'])} OPF layouts, {len(extra['alts'])} picture alt-text cases, "
+            f"{len(extra['srcs'])} picture sources, {len(extra['lens'])} geometry values, {len(extra['pdfs'])} tagged PDFs, "
+            f"{len(extra['ncrs'])} character-reference cases")
 
     # ------------------------------------------------------------------ 2. jobs
     if os.path.exists(L.NX_ROOT):
@@ -308,6 +327,29 @@ def run(ctx):
         data = L.alt_variant(base[a["fmt"]], a["fmt"], a)
         add({"id": f"alt:{i}", "fmt": a["fmt"], "data": data, "sp": dict(none_sp0), "parg": None, "mat": False},
             kind="alt", abstract=a, fmt=a["fmt"])
+
+    # where a picture's bytes come from / picture geometry (post-processed packages with four pictures)
+    base4 = {f: render(L.four_images(L.enrich(rich_doc(f, ctx.seed)), f), f) for f in formats if f in L.ALT_FORMATS}
+    for i, c in enumerate(extra["srcs"]):
+        x = c["x"]
+        add({"id": f"src:{i}", "fmt": x["fmt"], "data": L.src_variant(base4[x["fmt"]], x["fmt"], x["pos"], x["src"]),
+             "sp": dict(none_sp0), "parg": None, "mat": False}, kind="src", abstract=x, fmt=x["fmt"])
+    for i, c in enumerate(extra["lens"]):
+        x = c["x"]
+        add({"id": f"len:{i}", "fmt": x["fmt"], "data": L.len_variant(base4[x["fmt"]], x["fmt"], x["attr"], x["len"]),
+             "sp": dict(none_sp0), "parg": None, "mat": False}, kind="len", abstract=x, fmt=x["fmt"])
+    # strings that are not Unicode text in the file: tagged PDFs (own writer), HTML character references
+    if "pdf" in formats:
+        for i, c in enumerate(extra["pdfs"]):
+            add({"id": f"pdf:{i}", "fmt": "pdf", "data": L.tagged_pdf(c["x"]), "sp": dict(none_sp0), "parg": None, "mat": False},
+                kind="pdf", abstract=c["x"], fmt="pdf")
+    for i, c in enumerate(extra["ncrs"]):
+        x = c["x"]
+        data = L.ncr_html(x["place"], x["ref"])
+        if x["fmt"] == "mhtml":
+            data = L.mhtml_wrap(data, random.Random(f"{ctx.seed}:ncr:{i}"))
+        add({"id": f"ncr:{i}", "fmt": x["fmt"], "data": data, "sp": dict(none_sp0), "parg": None, "mat": False},
+            kind="ncr", abstract=x, fmt=x["fmt"])
 
     # well-formed containers whose picture payloads are not recognisable images (accepted by every extractor)
     none_sp = {"root": "none", "dirs": [], "stem": "", "exts": [], "fexists": False, "dexists": False}
@@ -374,7 +416,7 @@ def run(ctx):
             traces.append({"id": f"{j['id']}@{k}", "hdr": hdr, "ev": evs[k:k + L.MAX_EVENTS_PER_TRACE]})
             owner.append((j, r, k))
     ctx.log("extraction outcomes: " + ", ".join(f"{k[0]}/{k[1]}={n}" for k, n in sorted(stat.items())))
-    gen_kinds = ("path", "case", "units", "imgdamage", "head", "opf", "alt")
+    gen_kinds = ("path", "case", "units", "imgdamage", "head", "opf", "alt", "src", "len", "pdf", "ncr")
     gen_total = sum(n for (k, s), n in stat.items() if k in gen_kinds)
     gen_ok = sum(n for (k, s), n in stat.items() if k in gen_kinds and s == "ok")
     if gen_ok < 0.9 * gen_total:
@@ -414,7 +456,7 @@ def run(ctx):
         if r["status"] == "ok" and m["kind"] != "fixture":
             ev.nontrivial((m["kind"], json.dumps(m.get("abstract"), sort_keys=True), m.get("file"), r.get("msg")))
     shown = 0
-    for want in ("path", "case", "units", "head", "opf", "alt", "imgdamage", "fixture", "mutant"):
+    for want in ("path", "case", "units", "head", "opf", "alt", "src", "len", "pdf", "ncr", "imgdamage", "fixture", "mutant"):
         for j in jobs:
             m, r = meta[j["id"]], results[j["id"]]
             if m["kind"] == want and r["status"] == "ok" and r["events"]:
@@ -431,7 +473,8 @@ def run(ctx):
                 "recorded on every result and validated by TLC (IfaceTrace); non-trivial = distinct generated case or accepted mutant",
            exhaustive=bool(ctx.thorough),       # quick replays a seeded sample of the enumerated paths
            constants={"MaxDirs": max_dirs, "MaxVal": max_val, "paths": len(paths), "paths_replayed": len(replay_paths), "cases": len(cases), "unit_runs": len(units), "head_layout_cases": len(extra["heads"]),
-                      "opf_layout_cases": len(extra["opfs"]), "picture_alt_cases": len(extra["alts"]),
+                      "opf_layout_cases": len(extra["opfs"]), "picture_alt_cases": len(extra["alts"]), "picture_source_cases": len(extra["srcs"]),
+                      "geometry_cases": len(extra["lens"]), "tagged_pdf_cases": len(extra["pdfs"]), "ncr_cases": len(extra["ncrs"]),
                       "fixtures": len(fixtures), "mutants_tried": sum(n for (k, s), n in stat.items() if k == "mutant"),
                       "mutants_accepted": acc, "accessor_events_validated": n_events,
                       "skipped_timeouts": sum(n for (k, s), n in stat.items() if s == "timeout"), "formats": formats})
